@@ -26,6 +26,15 @@ func (c *FnCtx) next(st *State) Term {
 	return t
 }
 
+// curState: the state whose NEXT bounds a heap version being introduced (set by the callers that
+// havoc heaps; defaults to the entry state).
+func (c *FnCtx) curState() *State {
+	if c.havocState != nil {
+		return c.havocState
+	}
+	return c.entry
+}
+
 // allocRef returns a fresh reference and bumps NEXT.
 func (c *FnCtx) allocRef(st *State) Term {
 	n := c.next(st)
